@@ -247,6 +247,47 @@ func genCase(r *kit.Rand, idx int, tier string) []string {
 		}
 		ops = append(ops, fmt.Sprintf("swrite %s %s %s", kit.Esc(db), kit.Esc(rp), strings.Join(toks, ",")))
 	}
+	doHWrite := func() {
+		// one HTTP request: precision, absent rp / db parameter, possibly a malformed line somewhere in the body
+		db := kit.Esc(kit.Pick(r, genDBs))
+		if r.Chance(1, 10) {
+			db = "%"
+		}
+		rp := kit.Esc(kit.Pick(r, []string{"autogen", "r2", "", ""}))
+		if focus && r.Chance(1, 2) {
+			db, rp = "d1", "autogen"
+		}
+		n := r.Range(1, 5)
+		badAt := -1
+		if r.Chance(1, 3) {
+			badAt = r.Intn(n + 1)
+		}
+		prec := kit.Pick(r, []string{"-", "n", "u", "ms", "s", "m", "h", "x"})
+		var toks []string
+		for j := 0; j <= n; j++ {
+			if j == badAt {
+				toks = append(toks, fmt.Sprintf("!%d", r.Intn(len(badLines))))
+			}
+			if r.Chance(1, 8) {
+				toks = append(toks, fmt.Sprintf("#%d", r.Intn(2))) // a comment / a blank line
+			}
+			if j == n {
+				break
+			}
+			pid++
+			p := genPoint(r, pid, kit.Pick(r, names))
+			p.pass = passOf(p)
+			ts := p.t / precUnit[prec]
+			if r.Chance(1, 12) {
+				// a time stamp that leaves the int64 ns range under precision h (the whole request is refused) and is a
+				// perfectly good one under every other precision
+				ts = 2562048
+			}
+			toks = append(toks, pointTok(p)+"@"+fmt.Sprint(ts))
+		}
+		flags := kit.Pick(r, []string{"-", "-", "-", "gz", "gz", "cons", "gz,cons", "gzhdr", "gztrunc"})
+		ops = append(ops, fmt.Sprintf("hwrite %s %s %s %s %s", db, rp, prec, strings.Join(toks, ","), flags))
+	}
 	doStart(ids[0])
 	if focus {
 		for _, id := range ids[1:] {
@@ -268,8 +309,10 @@ func genCase(r *kit.Rand, idx int, tier string) []string {
 			switch k := r.Intn(100); {
 			case k < 45:
 				doSWrite()
+			case k < 50:
+				doWrite(r.Range(1, 3)) // refused: err:closed (err:500 in http mode)
 			case k < 55:
-				doWrite(r.Range(1, 3)) // refused: err:closed
+				doHWrite() // parsed, then refused: 500 (or 400 when the request is bad anyway)
 			case k < 80:
 				id := kit.Pick(r, ids)
 				if running[id] != nil && r.Chance(1, 2) {
@@ -294,45 +337,7 @@ func genCase(r *kit.Rand, idx int, tier string) []string {
 		}
 		switch k := r.Intn(100); {
 		case k < 7:
-			// one HTTP request: precision, absent rp / db parameter, possibly a malformed line somewhere in the body
-			db := kit.Esc(kit.Pick(r, genDBs))
-			if r.Chance(1, 10) {
-				db = "%"
-			}
-			rp := kit.Esc(kit.Pick(r, []string{"autogen", "r2", "", ""}))
-			if focus && r.Chance(1, 2) {
-				db, rp = "d1", "autogen"
-			}
-			n := r.Range(1, 5)
-			badAt := -1
-			if r.Chance(1, 3) {
-				badAt = r.Intn(n + 1)
-			}
-			prec := kit.Pick(r, []string{"-", "n", "u", "ms", "s", "m", "h", "x"})
-			var toks []string
-			for j := 0; j <= n; j++ {
-				if j == badAt {
-					toks = append(toks, fmt.Sprintf("!%d", r.Intn(len(badLines))))
-				}
-				if r.Chance(1, 8) {
-					toks = append(toks, fmt.Sprintf("#%d", r.Intn(2))) // a comment / a blank line
-				}
-				if j == n {
-					break
-				}
-				pid++
-				p := genPoint(r, pid, kit.Pick(r, names))
-				p.pass = passOf(p)
-				ts := p.t / precUnit[prec]
-				if r.Chance(1, 12) {
-					// a time stamp that leaves the int64 ns range under precision h (the whole request is refused) and is a
-					// perfectly good one under every other precision
-					ts = 2562048
-				}
-				toks = append(toks, pointTok(p)+"@"+fmt.Sprint(ts))
-			}
-			flags := kit.Pick(r, []string{"-", "-", "-", "gz", "gz", "cons", "gz,cons", "gzhdr", "gztrunc"})
-			ops = append(ops, fmt.Sprintf("hwrite %s %s %s %s %s", db, rp, prec, strings.Join(toks, ","), flags))
+			doHWrite()
 		case k < 13:
 			// several writers at once
 			db, rp := kit.Pick(r, genDBs), kit.Pick(r, []string{"autogen", "r2", ""})
